@@ -94,6 +94,7 @@ fn main() {
         "check" => std::process::exit(check(&opts)),
         "replay" => std::process::exit(replay(&opts)),
         "slice" => std::process::exit(run_san::slice_main(&opts, opts.cases.unwrap_or(2), if opts.prop == "C17" { opts.cases.unwrap_or(6) } else { 0 })),
+        "deepiter" => std::process::exit(run_san::deepiter_main(opts.cases.unwrap_or(200_000) as usize)),
         "digest" => std::process::exit(run_diff::digest_main(&opts, false)),
         "digest-sub" => std::process::exit(run_diff::digest_main(&opts, true)),
         "trace" => std::process::exit(run_diff::trace_main(&opts, &opts.replay_file.clone().unwrap_or_default())),
@@ -116,6 +117,9 @@ fn check(o: &Opts) -> i32 {
             if o.ops.is_none() || o.cases.is_none() {
                 run_seq::run_enum(o, &mut rep);
             }
+            if o.prop == "C15" && o.ops.is_none() {
+                run_san::deepiter_substep(o, &mut rep);
+            }
             if o.prop == "C17" && o.tier == "thorough" && o.cases.is_none() {
                 engines.push("E5-san (Miri)");
                 run_san::substeps(o, &mut rep);
@@ -129,6 +133,10 @@ fn check(o: &Opts) -> i32 {
         "C13" => {
             engines.push("E1-seq (three executions per case)");
             run_indep::run(o, &mut rep);
+            if o.ops.is_none() {
+                engines.push("E2-pull (pipelines in which one source value is subscribed repeatedly)");
+                run_pull::run(o, &mut rep);
+            }
             engines.push("E3-vclock");
             run_vclock::run(o, &mut rep, 4);
         },
@@ -139,6 +147,10 @@ fn check(o: &Opts) -> i32 {
         "C16" => {
             engines.push("E3-vclock");
             run_vclock::run(o, &mut rep, 1);
+            if o.tier == "thorough" && o.cases.is_none() {
+                engines.push("E3r real-executor smoke (async-std)");
+                run_vclock::real_executor_smoke(&mut rep);
+            }
         },
         "C06" => {
             engines.push("E2-pull");
@@ -309,16 +321,16 @@ fn required_clauses(prop: &str) -> &'static [&'static str] {
     match prop {
         "C04" => &["c04.subscription", "c04.relay"],
         "C05" => &["c05.error-while-live"],
-        "C06" => &["pipe-macro-left-to-right-test", "stage map+flatten", "stage concat", "pipelines over an unbounded iterator"],
+        "C06" => &["pipe-macro-left-to-right-test", "stage map+flatten", "stage concat", "pipelines over an unbounded iterator", "stage same source value subscribed repeatedly (concat)", "stage same source value subscribed repeatedly (flatten)"],
         "C07" => &["c07.compare", "c07.take-complete", "c07.take-upstream-stop", "c07.upstream-complete"],
         "C08" => &["c08.greeting", "c08.late-greeter-after-over", "data-sequence", "fanin.completion", "fanin.pull-reaches-member"],
         "C09" => &["c09.boundary", "c09.outstanding-pull", "data-sequence", "fanin.completion"],
         "C10" => &["c10.greeting", "data-sequence", "fanin.completion", "fanin.pull-reaches-member"],
         "C11" => &["c11.inner-emitted", "c11.switch", "c11.completion", "c11.pull-routing", "data-sequence"],
         "C12" => &["c12.attach", "c12.detach", "c12.fanout", "c12.resubscription"],
-        "C13" => &["c13.solo-replays"],
+        "C13" => &["c13.solo-replays", "stage same source value subscribed repeatedly (concat)", "stage same source value subscribed repeatedly (flatten)"],
         "C14" => &["c14.prefix", "c14.quiescent"],
-        "C15" => &["c15.step", "c15.next-call", "c15.exhausted"],
+        "C15" => &["c15.step", "c15.next-call", "c15.exhausted", "c15.deep-iterator-items-on-256KiB-stack"],
         "C16" => &["interval.ticks-delivered", "interval.cases-with-injected-spawn-failure", "interval.cases-with-disposal"],
         "C18" | "C19" => &["hook-yield-points"],
         _ => &[],
